@@ -82,6 +82,7 @@ func runC37(c *Ctx) {
 		c.check(len(rm) == 1 && len(sr) == 1 && precedes(rm[0], sr[0]), "C37.close-order", spec.closeFn, cf, "the entry is removed (channel closed) before the cancel request round-trip", "Close does not remove the entry before sending the cancel request")
 	}
 	// ---- close semantics
+	c37RemoveIdentity(c)
 	for _, name := range []string{"(*forwardList).remove", "(*forwardList).closeAll"} {
 		f := c.fn("ssh", name)
 		if f == nil {
